@@ -18,16 +18,20 @@ import (
 
 func init() {
 	seqChecks["c13"] = &seqCheck{run: runC13, replay: replayC13,
-		rule: "every mutation history of <=3 operations (thorough: 4, the 4th over the reduced value set {nil, (k,k)} without two-mutation transactions) {Create, Update, Delete, two updates in one transaction, update+delete in one transaction} x ids {a,b,c} x values with key vectors {nil,empty,k,ka,l, a key containing the separator byte NUL} x {nil,k} (two indexes), each on a fresh badgerstore + QueryStore under the scheduler; after Flush 16 basic queries per history and the full set (2 indexes x 7 prefixes x 3 filters x 4 offsets x 4 limits x 2 directions = 1344) on every distinct content of depth<=2 are compared with a sorted/filtered/windowed scan of the model map; OnQueryChange count, the query result inside the callback and Events() are checked for every mutation (C14); distinct = distinct (history, result vector)"}
+		rule: "every mutation history of <=3 operations (thorough: 4, the 4th over the reduced value set {nil, (k,k)} without two-mutation transactions) {Create, Update, Delete, two updates in one transaction, update+delete in one transaction} x ids {a,b,c} x values with key vectors {nil,empty,k,ka,l, a key containing the separator byte NUL, a key whose byte after the prefix k is 0xFF} x {nil,k} (two indexes), each on a fresh badgerstore + QueryStore under the scheduler; after Flush 16 basic queries per history and the full set (2 indexes x 7 prefixes x 3 filters x 4 offsets x 4 limits x 2 directions = 1344) on every distinct content of depth<=2 are compared with a sorted/filtered/windowed scan of the model map; OnQueryChange count, the query result inside the callback and Events() are checked for every mutation (C14); distinct = distinct (history, result vector)"}
 }
 
 type c13Val struct{ k1, k2 string } // "" = nil key
 
 // "@" stands for a present but empty key (an empty, non-nil index key)
 // the last value's key holds the index's own separator byte (NUL); no other key is a prefix of it
-var c13Vals = []c13Val{{"", ""}, {"k", ""}, {"ka", ""}, {"l", ""}, {"", "k"}, {"k", "k"}, {"ka", "k"}, {"l", "k"}, {"@", ""}, {"@", "k"}, {"m\x00z", ""}}
+var c13Vals = []c13Val{{"", ""}, {"k", ""}, {"ka", ""}, {"l", ""}, {"", "k"}, {"k", "k"}, {"ka", "k"}, {"l", "k"}, {"@", ""}, {"@", "k"}, {"m\x00z", ""}, {"k#", ""}}
 
-var c13AllVals = []int{0, 1, 2, 3, 4, 5, 6, 7, 8, 9, 10}
+var c13AllVals = []int{0, 1, 2, 3, 4, 5, 6, 7, 8, 9, 10, 11}
+
+// c13B maps the marker '#' of a key vector to the byte 0xFF (the stored JSON value keeps the marker: 0xFF is
+// not valid UTF-8): a key whose byte after the prefix "k" is the largest possible one
+func c13B(k string) string { return strings.ReplaceAll(k, "#", "\xff") }
 
 func (v c13Val) value() map[string]interface{} {
 	m := map[string]interface{}{"x": "y"}
@@ -92,7 +96,7 @@ func c13Key(idx string, v map[string]interface{}) []byte {
 		f = "k2"
 	}
 	if s, ok := v[f].(string); ok {
-		return []byte(s)
+		return []byte(c13B(s))
 	}
 	return nil
 }
@@ -113,6 +117,7 @@ func c13Ref(model map[string]c13Val, q c13Query) []string {
 		if k == "@" {
 			k = ""
 		}
+		k = c13B(k)
 		if !strings.HasPrefix(k, q.Prefix) {
 			continue
 		}
@@ -358,6 +363,7 @@ func c13Run(db *badger.DB, prefix string, ops []c13Op, queries []c13Query, emit 
 						if k == "@" {
 							k = ""
 						}
+						k = c13B(k)
 						if !strings.HasPrefix(k, q.Prefix) {
 							return false
 						}
